@@ -6,7 +6,7 @@ import lib.compat  # noqa
 from migen import *
 from litedram.common import LiteDRAMNativePort
 from lib.fastsim import FastSim, MigenSim, compile_dut, HarnessError
-from lib.native import NativeMaster, NativeSlave
+from lib.native import NativeMaster, NativeSlave, native_slave, slave_style
 
 _CACHE = {}
 
@@ -112,7 +112,7 @@ def run_adapter(cfg, stim, backend="fast", max_cycles=None):
     """single clock (converters). stim: {ops: [...], slave: {ready, wlat, rlat, qmax}, wait_reads, use_last}"""
     dut, sim = get_sim(cfg, backend)
     sl = stim.get("slave", {})
-    slave = NativeSlave([dut.ctrl], ready_pattern=sl.get("ready"), wlat=sl.get("wlat"), rlat=sl.get("rlat"), qmax=sl.get("qmax", 8))
+    slave = native_slave([dut.ctrl], sl)
     master = NativeMaster(dut.user, stim["ops"], flush_at_end=True, use_last=True, wait_reads=stim.get("wait_reads", False))
     lat = max((sl.get("wlat") or [3]) + (sl.get("rlat") or [5])) + sum(sl.get("ready") or [0]) + 8
     down = max(1, cfg["user_dw"] // cfg["ctrl_dw"])
@@ -197,10 +197,12 @@ def oracle_adapter(run, clause_prefix):
 # ---------------------------------------------------------------------------------------------------
 @st.composite
 def slave_sched(draw):
-    return dict(ready=draw(st.sampled_from([None, None, [1, 1], [3, 2], [1, 5], [8, 1, 1, 3], [0, 6, 4, 1]])),
-                wlat=draw(st.lists(st.integers(3, 14), min_size=1, max_size=4)),
-                rlat=draw(st.lists(st.integers(5, 20), min_size=1, max_size=4)),
-                qmax=draw(st.integers(1, 10)))
+    d = dict(ready=draw(st.sampled_from([None, None, [1, 1], [3, 2], [1, 5], [8, 1, 1, 3], [0, 6, 4, 1]])),
+             wlat=draw(st.lists(st.integers(3, 14), min_size=1, max_size=4)),
+             rlat=draw(st.lists(st.integers(5, 20), min_size=1, max_size=4)),
+             qmax=draw(st.integers(1, 10)))
+    d.update(slave_style(draw, st))
+    return d
 
 
 @st.composite
@@ -275,7 +277,7 @@ def run_cdc(cfg, stim, backend="fast", max_ticks=None):
     """two clocks: master in 'user', realistic slave in 'sys'"""
     dut, sim = get_sim(cfg, backend)
     sl = stim.get("slave", {})
-    slave = NativeSlave([dut.ctrl], ready_pattern=sl.get("ready"), wlat=sl.get("wlat"), rlat=sl.get("rlat"), qmax=sl.get("qmax", 8))
+    slave = native_slave([dut.ctrl], sl)
     master = NativeMaster(dut.user, stim["ops"], wait_reads=stim.get("wait_reads", False))
     nreads = sum(1 for op in stim["ops"] if not op["we"])
     tcount = {"user": 0, "sys": 0}
